@@ -37,3 +37,12 @@ func init() {
 			{"clause/expression.go", "\t\tif rv.Len() == 0 {\n\t\t\tbuilder.WriteString(\" IN (NULL)\")\n\t\t} else {\n\t\t\tbuilder.WriteString(\" IN (\")", "\t\tif rv.Len() == 0 {\n\t\t\tbuilder.WriteString(\" IN ()\")\n\t\t} else {\n\t\t\tbuilder.WriteString(\" IN (\")"}}},
 	)
 }
+
+func init() {
+	addMutants(
+		Mutant{Name: "c01-expr-cursor-not-advanced-after-slice", Property: "C01", Rule: "C01.once", Edits: []Edit{{"clause/expression.go",
+			"\t\t\t} else {\n\t\t\t\tbuilder.AddVar(builder, expr.Vars[idx])\n\t\t\t}\n\n\t\t\tidx++\n\t\t} else {\n\t\t\tif v == '(' {\n\t\t\t\tafterParenthesis = true\n\t\t\t} else {\n\t\t\t\tafterParenthesis = false\n\t\t\t}\n\t\t\tbuilder.WriteByte(v)\n\t\t}\n\t}\n\n\tif idx < len(expr.Vars) {",
+			"\t\t\t\tidx++\n\t\t\t} else {\n\t\t\t\tbuilder.AddVar(builder, expr.Vars[idx])\n\t\t\t}\n\t\t} else {\n\t\t\tif v == '(' {\n\t\t\t\tafterParenthesis = true\n\t\t\t} else {\n\t\t\t\tafterParenthesis = false\n\t\t\t}\n\t\t\tbuilder.WriteByte(v)\n\t\t}\n\t}\n\n\tif idx < len(expr.Vars) {"}},
+			Note: "idx++ moved into the parenthesised arm only: a plain `?` re-binds the same argument"},
+	)
+}
